@@ -158,6 +158,22 @@ def kind_layouts():
         src = KPRE + KINDS[k][0] % {"n": n} + "fn other(a: int) -> int {\n    return a\n}\nshadow other { assert (== (other 1) 1) }\n"
         src += "fn main() -> int {\n    (println \"ran\")\n    return 0\n}\nshadow main { assert true }\n"
         yield "kind-missing:" + k, src, {n: None, "other": (1, 0)}
+    # which functions lack a shadow block is decided per function NAME: every pair of name shapes, both unshadowed,
+    # plus a third, shadowed function whose name is related to them - each missing one must be reported
+    for (la, a_), (lb, b_) in itertools.product(NAME_SHAPES, repeat=2):
+        if a_ == b_:
+            continue
+        src = "".join("fn %s(a: int) -> int {\n    return (+ a %d)\n}\n" % (nm, i) for i, nm in enumerate((a_, b_)))
+        src += "fn %s_t(a: int) -> int {\n    return a\n}\nshadow %s_t { assert (== (%s_t 1) 1) }\n" % (a_[:20], a_[:20], a_[:20])
+        src += "fn main() -> int {\n    (println \"ran\")\n    return 0\n}\nshadow main { assert true }\n"
+        yield "names-missing:%s,%s" % (la, lb), src, {a_: None, b_: None, a_[:20] + "_t": (1, 0)}
+
+
+_L = "convert_temperature_reading_to_"      # 31 characters
+NAME_SHAPES = [("short", "f"), ("short-digit", "f1"), ("short-digit2", "f10"), ("len31", _L[:31]), ("len31+a", _L + "celsius"), ("len31+b", _L + "kelvin"),
+               ("len32", _L + "x"), ("len63a", (_L * 3)[:62] + "a"), ("len63b", (_L * 3)[:62] + "b"), ("len64+", (_L * 3)[:64] + "tail"),
+               ("len200a", ("very_long_function_name_" * 9)[:199] + "a"), ("len200b", ("very_long_function_name_" * 9)[:199] + "b"),
+               ("underscore", "_g"), ("upper", "Fn_Upper")]
 
 
 def _task(args):
